@@ -35,6 +35,8 @@ Record hinv (D : list positive) (h : heap) : Prop := mk_hinv {
     (forall q cq, findq h q = Some cq ->
        exists x p cx, q_win cq = Some x /\ q_parent cq = Some p /\
                       findw h x = Some cx /\ w_parent cx = Some p /\ anc h x root);
+  (* only restacking requests are queued *)
+  hi_qkind : forall q cq, findq h q = Some cq -> is_restack (q_change cq) = true;
   hi_drag : r_drag (rx h) = Some None;
   hi_nextw : forall a, findw h a <> None -> (a < nextw h)%positive;
   hi_nextw_root : (root < nextw h)%positive;
@@ -106,7 +108,7 @@ Proof.
     - eapply anc_step; eauto. rewrite Fw. eassumption. }
   assert (Qc : forall p l, qchain h p l -> qchain h' p l).
   { intros p l Hc. induction Hc; econstructor; eauto. rewrite Fq. eassumption. }
-  destruct HI as [K P PL O F R C I RP Q Dg NW NWR NQ].
+  destruct HI as [K P PL O F R C I RP Q QK Dg NW NWR NQ].
   constructor.
   - intros a c Hf. rewrite Fw in Hf. destruct (K a c Hf) as [l [Hc Hl]]. exists l. split; auto.
     intro k. rewrite (Hl k). split; intros [ck [H1 H2]]; exists ck; split; auto; [rewrite Fw|rewrite <- Fw]; auto.
@@ -122,6 +124,7 @@ Proof.
     + intro q. rewrite Fq. apply Hq2.
     + intros q cq Hfq. rewrite Fq in Hfq. destruct (Hq3 q cq Hfq) as [x [p [cx [H1 [H2 [H3 [H4 H5]]]]]]].
       exists x, p, cx. rewrite Fw. auto 10.
+  - intros q cq Hfq. rewrite Fq in Hfq. eauto.
   - rewrite Hr. exact Dg.
   - intros a Ha. rewrite Fw in Ha. rewrite Hnw. auto.
   - rewrite Hnw. exact NWR.
